@@ -2,6 +2,8 @@ ID = "C02"
 LEVEL = "proof"
 CONTRACT_MODULES = ["contracts.sorting", "contracts.refcount", "contracts.tasks", "contracts.tasks_proto"]
 FUNCTIONS = ["_dfs", "toposort", "Manager.find_taskids", "Manager.find_tasks", "Manager.run_tasks", "Manager.set_value"]
+# the indices the downstream set is read from are maintained by register/unregister (C03)
+BORROW = [('C03', ['Manager.register', 'Manager.unregister'])]
 RAC = "rac/c02.py"
 RAC_BUDGET = {"quick": 60, "thorough": 600}
 RAC_MIN = {"quick": 16038, "thorough": 16038}      # fewer run-time evaluations than this = the harness skipped its work: checker broken, not "held"
